@@ -6,7 +6,7 @@ import CimbaModel.HashHeap.Orders
 import CimbaModel.HashHeap.GuardOrder
 import CimbaModel.HashHeap.Hash
 import CimbaModel.HashHeap.Inv
-import CimbaModel.HashHeap.RefineTrace
+import CimbaModel.HashHeap.RefineLookup
 
 namespace CimbaModel.Props.C02
 open CimbaModel CimbaModel.HashHeap CimbaModel.Generated CimbaModel.KPQ
@@ -192,6 +192,56 @@ theorem history_refines_spec [StrictWeak lt] [IgnoresHidx lt] (e : Nat) (h1 : 1 
   obtain ⟨s', rs, hrun, hwf', hspec⟩ := run_refines ops hwf hpre
   rw [habs, hct] at hspec
   exact ⟨s', rs, hrun, hwf', hspec⟩
+
+/-! #### a payload stays attached to its key: what a lookup by key reports after each updating operation -/
+
+theorem payload_sticks_enqueue [StrictWeak lt] [IgnoresHidx lt] {s : HH} (h : WF lt s) (it : Item) (k : Nat) (d i : Int) :
+    let k' := if k = 0 then s.counter + 1 else k
+    k' ≠ 0 → k' < 2 ^ 64 → k' ∉ keys (abs s) → (s.count < 2 ^ s.exp ∨ s.exp < 31) →
+    ∃ s', enqueue lt s it k d i = .ok (s', k') ∧
+      KPQ.lookup (abs s') k' = some ⟨k', 0, it, d, i⟩ ∧
+      ∀ k2, k2 ≠ k' → KPQ.lookup (abs s') k2 = KPQ.lookup (abs s) k2 := by
+  intro k' h0 h64 hf hroom
+  obtain ⟨s', hrun, hwf, hperm, _⟩ := enqueue_abs h it k d i h0 h64 hf hroom
+  exact ⟨s', hrun, lookup_after_insert h hwf ⟨k', 0, it, d, i⟩ hperm⟩
+
+theorem payload_sticks_remove [StrictWeak lt] {s : HH} (h : WF lt s) (k : Nat) (hk0 : k ≠ 0) :
+    ∃ s' b, remove lt s k = .ok (s', b) ∧ KPQ.lookup (abs s') k = none ∧
+      ∀ k2, k2 ≠ k → KPQ.lookup (abs s') k2 = KPQ.lookup (abs s) k2 := by
+  obtain ⟨s', hrun, hwf, hperm, _⟩ := remove_abs h k hk0
+  exact ⟨s', _, hrun, lookup_after_remove h hwf k hperm⟩
+
+theorem payload_sticks_reprio [StrictWeak lt] {s : HH} (h : WF lt s) {k : Nat} (hk : k ∈ keys (abs s)) (d i : Int) :
+    ∃ s', reprioritize lt s k d i = .ok s' ∧
+      KPQ.lookup (abs s') k = (KPQ.lookup (abs s) k).map (fun t => { t with d := d, i := i }) ∧
+      ∀ k2, k2 ≠ k → KPQ.lookup (abs s') k2 = KPQ.lookup (abs s) k2 := by
+  obtain ⟨s', hrun, hwf, hperm, _⟩ := reprio_abs h hk d i
+  exact ⟨s', hrun, lookup_after_reprio h hwf k d i hperm⟩
+
+theorem payload_sticks_dequeue [StrictWeak lt] {s : HH} (h : WF lt s) (hpos : 0 < s.count) :
+    ∃ s' e, dequeue lt s = .ok (s', some e) ∧ KPQ.lookup (abs s) e.key = some (norm e) ∧
+      KPQ.lookup (abs s') e.key = none ∧
+      ∀ k, k ≠ e.key → KPQ.lookup (abs s') k = KPQ.lookup (abs s) k := by
+  obtain ⟨s', hrun, hwf, hperm, _⟩ := dequeue_abs h hpos
+  refine ⟨s', s.tag 1, hrun, ?_, lookup_after_dequeue h hwf (norm (s.tag 1)) hperm⟩
+  rw [lookup_eq_some_iff h.keys_nodup]
+  exact ⟨hperm.mem_iff.2 List.mem_cons_self, rfl⟩
+
+/-- the concrete accessor agrees: if the abstract lookup of a live key is unchanged between two well-formed
+    states, `lookup` (the common part of `cmi_hashheap_item/dkey/ikey`) returns the same payload and sort keys -/
+theorem payload_sticks_concrete {s s' : HH} (h : WF lt s) (h' : WF lt s') {k : Nat} (hk : k ∈ keys (abs s))
+    (heq : KPQ.lookup (abs s') k = KPQ.lookup (abs s) k) :
+    ∃ t t', lookup s k = .ok t ∧ lookup s' k = .ok t' ∧ norm t' = norm t := by
+  obtain ⟨t, hrun, hl⟩ := lookup_spec h hk
+  have hk' : k ∈ keys (abs s') := by
+    apply Classical.byContradiction
+    intro hn
+    rw [(lookup_eq_none_iff _ _).2 hn, hl] at heq
+    cases heq
+  obtain ⟨t', hrun', hl'⟩ := lookup_spec h' hk'
+  refine ⟨t, t', hrun, hrun', ?_⟩
+  rw [hl, hl'] at heq
+  exact Option.some.inj heq
 
 end refinement
 
